@@ -45,6 +45,7 @@ type Sim struct {
 	MaxTicks             int
 	Gen                  int // bumped by every swap, time advance, incentive creation and claim
 	MaxLiq               *big.Int // max over the history of the summed liquidity of all positions (truncated)
+	InvSqrt2             *big.Rat // sum over successful swaps of 1/min(sqrt price before, after)^2 (token0 cost of one 1e-36 sqrt-price rounding per unit liquidity)
 	Legacy               bool     // unscaled spread-reward accumulator (pool id <= migration threshold)
 	LegacyInc            bool     // unscaled incentive accumulators
 
@@ -85,7 +86,7 @@ func (s *Sim) log(f string, a ...any) { s.Hist = append(s.Hist, fmt.Sprintf(f, a
 // New builds the chain, funds the actors, configures CL params and creates the pool.
 func New(rt *rapid.T, t *testing.T) *Sim {
 	c := chain.New(t)
-	s := &Sim{C: c, Vol: map[string]*big.Int{D0: new(big.Int), D1: new(big.Int)}, IncentiveDeposited: map[string]*big.Int{}, Known: map[uint64]PosRec{}, Classes: map[string]int{}, MaxLiq: new(big.Int)}
+	s := &Sim{C: c, Vol: map[string]*big.Int{D0: new(big.Int), D1: new(big.Int)}, IncentiveDeposited: map[string]*big.Int{}, Known: map[uint64]PosRec{}, Classes: map[string]int{}, MaxLiq: new(big.Int), InvSqrt2: new(big.Rat)}
 	huge, _ := new(big.Int).SetString("1000000000000000000000000000000000000000000", 10) // 1e42
 	for a := 0; a < NActors; a++ {
 		cs := sdk.NewCoins(coin(D0, huge), coin(D1, huge), coin("uosmo", big.NewInt(1_000_000_000_000)))
@@ -399,6 +400,8 @@ func (s *Sim) swapAmount(rt *rapid.T, denom string) *big.Int {
 	}
 }
 
+var bigDecOne = new(big.Int).Exp(big.NewInt(10), big.NewInt(36), nil)
+
 func (s *Sim) Swap(rt *rapid.T) {
 	if len(s.Known) == 0 {
 		rt.Skip("no liquidity")
@@ -435,6 +438,14 @@ func (s *Sim) Swap(rt *rapid.T) {
 	s.Swaps++
 	s.Gen++
 	p1 := s.Pool()
+	sMin := p0.GetCurrentSqrtPrice()
+	if p1.GetCurrentSqrtPrice().LT(sMin) {
+		sMin = p1.GetCurrentSqrtPrice()
+	}
+	if sMin.IsPositive() {
+		sr := new(big.Rat).SetFrac(sMin.BigInt(), bigDecOne)
+		s.InvSqrt2.Add(s.InvSqrt2, new(big.Rat).Inv(sr.Mul(sr, sr)))
+	}
 	if p0.GetCurrentTick() != p1.GetCurrentTick() {
 		s.class("swap-changed-tick")
 	}
